@@ -273,6 +273,47 @@ func c05faults(v gen.Variant) []c05fault {
 			}
 		}
 	}
+	// twin functions: a copy of a whole function under another name, placed right after it, in which
+	// ONE parameter is renamed in the header only: the body of the twin then refers to a local that
+	// is defined in the original function but not in the twin -- with byte-identical use sites (a
+	// cache keyed by source text or by name across functions resolves it all the same).
+	for _, f := range fns {
+		if len(f.name) < 2 || f.name[0] != '@' || strings.ContainsAny(f.name, "\"\\") || (f.name[1] >= '0' && f.name[1] <= '9') {
+			continue
+		}
+		end := f.end + 2
+		if end > len(text) || text[f.end:end] != "}\n" {
+			continue
+		}
+		ft := text[f.start:end]
+		hdrEnd := strings.Index(ft, "\n")
+		if hdrEnd < 0 {
+			continue
+		}
+		hdr, body := ft[:hdrEnd], ft[hdrEnd:]
+		if strings.Count(hdr, f.name+"(") != 1 || strings.Contains(body, f.name) {
+			continue // (self references keep pointing at the original: leave such functions alone)
+		}
+		var ps []string
+		for n, k := range f.locals {
+			if k == "value" && len(n) > 1 && !(n[1] >= '0' && n[1] <= '9') && !strings.ContainsAny(n, "\"\\") {
+				ps = append(ps, n)
+			}
+		}
+		sort.Strings(ps)
+		for _, pn := range ps {
+			re := regexp.MustCompile(regexp.QuoteMeta(pn) + `([^-a-zA-Z$._0-9]|$)`)
+			if len(re.FindAllString(hdr, -1)) != 1 || !re.MatchString(body) {
+				continue // not a parameter of this header, or never used in the body
+			}
+			if defLine := regexp.MustCompile(`(?m)^\s*` + regexp.QuoteMeta(pn) + ` = `); defLine.MatchString(body) {
+				continue
+			}
+			nh := re.ReplaceAllString(hdr, pn+"_gone$1")
+			nh = strings.Replace(nh, f.name+"(", f.name+"_twin(", 1)
+			out = append(out, c05fault{v: v, kind: "undefined", site: "twin-function-local", token: pn, text: text[:end] + nh + body + text[end:]})
+		}
+	}
 	for _, f := range fns {
 		var names []string
 		for n := range f.locals {
@@ -490,9 +531,9 @@ func runC05(c *fw.Check) {
 			if ok {
 				continue
 			}
-			if lok {
+			if lok || (f.site == "twin-function-local" && !strings.Contains(lmsg, "undefined value")) {
 				mu.Lock()
-				benign++ // LLVM accepts the "faulted" text: not a naming fault
+				benign++ // LLVM accepts the "faulted" text (or rejects a twin for another reason): not a naming fault
 				mu.Unlock()
 				continue
 			}
